@@ -621,7 +621,7 @@ def run_shipped(rel, numvar, nrec, rec, tmpdir):
 
 # ------------------------------------------------------------------ workers
 
-class _Timeout(Exception):
+class _Timeout(BaseException):
     pass
 
 
